@@ -29,11 +29,11 @@ TSV_CELLS = [c for c in CELLS if '\t' not in c]
 
 def plan(tier, seed):
     shards = []
-    for i in range(3 if tier == 'quick' else 8):
+    for i in range(3 if tier == 'quick' else 20):
         shards.append({'name': 'csv-%d' % i, 'fn': 'shard_csv', 'args': {'part': i}})
-    for i in range(2 if tier == 'quick' else 6):
+    for i in range(2 if tier == 'quick' else 16):
         shards.append({'name': 'tsv-%d' % i, 'fn': 'shard_tsv', 'args': {'part': i}})
-    for i in range(3 if tier == 'quick' else 8):
+    for i in range(3 if tier == 'quick' else 20):
         shards.append({'name': 'vw-%d' % i, 'fn': 'shard_vw', 'args': {'part': i}})
     shards.append({'name': 'stream', 'fn': 'shard_stream', 'args': {}})
     shards.append({'name': 'namespace-map', 'fn': 'shard_namespace', 'args': {}})
